@@ -27,20 +27,29 @@ Example check_truncate_ex : check_truncate 78 (78 * 4096) (50 * 4096) (50 * 4096
 Proof. vm_compute. reflexivity. Qed.
 
 (* ---------- the truncation after a rollback ---------- *)
-(* it really shrinks the file, to exactly the end of the restored state: every page below the larger of the two end
-   markers - data pages, the meta area, an overflow area behind the size limit - is still inside the file *)
-Theorem rollback_truncate_spec metaEnd dataEnd sz ps mp n :
-  0 < ps -> rollback_truncate metaEnd dataEnd sz ps mp = Some n ->
-  n < sz /\ n = Z.max metaEnd dataEnd * ps /\ (forall id, 0 <= id < Z.max metaEnd dataEnd -> (id + 1) * ps <= n).
+(* it really shrinks the file, and every page below the larger of the two end markers of the restored state - data
+   pages, the meta area, an overflow area behind the size limit - and every page below the end of the state of the
+   other header page is still inside the file *)
+Theorem rollback_truncate_spec metaEnd dataEnd otherEnd sz ps mp n :
+  0 < ps -> rollback_truncate metaEnd dataEnd otherEnd sz ps mp = Some n ->
+  n < sz /\ n = Z.max (Z.max metaEnd dataEnd) otherEnd * ps /\
+  (forall id, 0 <= id < Z.max metaEnd dataEnd -> (id + 1) * ps <= n) /\
+  (forall id, 0 <= id < otherEnd -> (id + 1) * ps <= n).
 Proof.
   intros Hps. unfold rollback_truncate. destruct (mp =? 0); [discriminate|].
-  destruct (Z.max metaEnd dataEnd * ps <? sz) eqn:E; [|discriminate]. intros [= <-].
-  split; [lia|]. split; [reflexivity|]. intros id Hid. nia.
+  destruct (Z.max (Z.max metaEnd dataEnd) otherEnd * ps <? sz) eqn:E; [|discriminate]. intros [= <-].
+  split; [lia|]. split; [reflexivity|]. split; intros id Hid; nia.
 Qed.
 
 (* an unbounded file is not truncated by a rollback *)
-Theorem rollback_truncate_unbounded metaEnd dataEnd sz ps : rollback_truncate metaEnd dataEnd sz ps 0 = None.
+Theorem rollback_truncate_unbounded metaEnd dataEnd otherEnd sz ps : rollback_truncate metaEnd dataEnd otherEnd sz ps 0 = None.
 Proof. reflexivity. Qed.
+
+(* the code before fix D33 cut off the pages of the other header's state: the newest commit ends at page 68, the
+   previous one (the fall-back of Open) at page 153 *)
+Theorem rollback_truncate_v1_refuted : exists metaEnd dataEnd otherEnd sz ps mp n id,
+  rollback_truncate_v1 metaEnd dataEnd sz ps mp = Some n /\ 0 <= id < otherEnd /\ n < (id + 1) * ps.
+Proof. exists 68, 68, 153, (153 * 1024), 1024, 64, (68 * 1024), 152. split; [vm_compute; reflexivity | lia]. Qed.
 
 (* the variant that truncates to the data end marker (seeded change C02j) cuts off a committed overflow area:
    64 data pages, meta end marker 67 (3 pages behind the limit in use), the file has 72 pages *)
@@ -48,5 +57,7 @@ Theorem rollback_truncate_dataend_refuted : exists metaEnd dataEnd sz ps mp n id
   rollback_truncate_dataend dataEnd sz ps mp = Some n /\ dataEnd <= id < metaEnd /\ n < (id + 1) * ps.
 Proof. exists 67, 64, (72 * 1024), 1024, 64, (64 * 1024), 65. split; [vm_compute; reflexivity | lia]. Qed.
 
-Example rollback_truncate_ex : rollback_truncate 67 64 (72 * 1024) 1024 64 = Some (67 * 1024).
+Example rollback_truncate_ex : rollback_truncate 67 64 0 (72 * 1024) 1024 64 = Some (67 * 1024).
+Proof. vm_compute. reflexivity. Qed.
+Example rollback_truncate_ex2 : rollback_truncate 68 68 153 (160 * 1024) 1024 64 = Some (153 * 1024).
 Proof. vm_compute. reflexivity. Qed.
